@@ -339,6 +339,29 @@ func hostileTransfer(p plan, src net.IP, port, tport int, rng *rand.Rand, hs *ho
 	if len(ref) != 4 {
 		return
 	}
+	if p.Mut == "dup" {
+		// the same preamble replayed on two concurrent transfer connections
+		var wg sync.WaitGroup
+		for k := 0; k < 2; k++ {
+			wg.Add(1)
+			go func() {
+				defer wg.Done()
+				y, err := dialFrom(src, tport)
+				if err != nil {
+					return
+				}
+				defer y.Close()
+				st := preamble(ref, len(data)+200)
+				if p.Sess == "upload" {
+					st = append(st, ffo(name, data)...)
+				}
+				_, _ = y.Write(st)
+				drain(y, 300*time.Millisecond)
+			}()
+		}
+		wg.Wait()
+		return
+	}
 	x, err := dialFrom(src, tport)
 	if err != nil {
 		return
@@ -432,7 +455,7 @@ func runParent(args []string) error {
 		}
 	}
 	rng := rand.New(rand.NewSource(*seed))
-	muts := []string{"trunc", "total", "datasz", "count", "flen", "dropfield", "shortid", "garbage", "badhs", "size"}
+	muts := []string{"trunc", "total", "datasz", "count", "flen", "dropfield", "shortid", "garbage", "badhs", "size", "dup"}
 	sess := []string{"ctl", "ctl", "ctl", "prelogin", "upload", "download", "fupload", "fdownload"}
 	for i := 0; i < *fuzz; i++ {
 		plans = append(plans, plan{Sess: sess[rng.Intn(len(sess))], Frame: 1 + rng.Intn(24), Mut: muts[rng.Intn(len(muts))], Val: rng.Intn(9)})
